@@ -1335,7 +1335,8 @@ class Process(StateMachine, persistence.Savable, metaclass=ProcessStateMachineMe
         """
         assert not self.has_terminated(), 'Cannot step, already terminated'
 
-        if self.paused and self._paused is not None:
+        # The process may have been played and paused again before this coroutine gets to run after being woken up
+        while self._paused is not None and not self._paused.done():
             await self._paused
 
         try:
